@@ -1319,3 +1319,16 @@ Print Assumptions C01_vol32_root_rename_failed_unchanged.
 Print Assumptions C01_vol32_formatted_root_ok.
 Print Assumptions C01_vol32_root_create_many_decodes.
 Print Assumptions C01_vol32_format_create_many_decodes.
+
+(* GROWTH of the FAT32 root (Model/Vol32Root.vol32_root_create_grow = Model/VolChainGrow.vol_create_file_grow on the root chain).
+   PARTIAL: the theorems C01_volchain_grow_* are proved for FAT12/16 geometries; for the FAT32 root the function is validated by this
+   evaluation and by the correspondence stream (tools/props/cvol_corr.py run_root32_stream, growing creates).  The full one-cluster
+   root of the example (15 of 16 slots used) takes a 3-slot entry: cluster 3 is allocated from the hint, zeroed and linked
+   (FAT entry 2 = 3, entry 3 = end of chain), the latch goes to (65577, 4, dirty), the decoder follows the root chain [2; 3],
+   finds 6 nodes and no well-formedness issue. *)
+From FatVerif Require Import Model.Table Model.VolChainGrow Proofs.Vol32RootGrowExamples.
+Example C01_vol32_root_grow_example :
+  grow_view (vol32_root_create_grow upper_ascii oem_decode_lossy ex32r_full ex32_fi (ex32_name_k 5) ex_vol_now) =
+  Some (Ok (Some (15, 18)), {| fi_free := Some 65577; fi_next := Some 4; fi_dirty := true |}, [2; 3], Some [2; 3], 6%nat, [],
+        65577, [3; 0; 0; 0; 255; 255; 255; 15]).
+Proof. exact ex32r_root_grows. Qed.
